@@ -1042,6 +1042,18 @@ func (e fixEvaluator) ToCoeffs(res map[int]*rlwe.Ciphertext, index int) {
 	e.r.INTT(res[index].Value[1], res[index].Value[1])
 }
 
+// ADVFWD control: the wrapper halves the forwarded count
+type wrapParams struct{ rows int }
+
+func RotationsForFold(batch, n int) []int { return []int{batch, n} }
+
+func (w wrapParams) RotationsForFold(batch, n int) []int {
+	if n*batch > w.rows {
+		return append(RotationsForFold(batch, n>>1), -1)
+	}
+	return RotationsForFold(batch, n)
+}
+
 // ITERACC control: every iteration scales by its own precision only
 type iterParams struct{ BootstrappingPrecision []float64 }
 
